@@ -102,16 +102,27 @@ func (s *ServerKeyStore) newCurrentKeyPair(ring api.MutableKeyRing) (*keys.Keypa
 	return pair, nil
 }
 
+// currentKeyAdder is implemented by key rings that can add a key and make it current atomically.
+type currentKeyAdder interface {
+	AddCurrentKey(key api.KeyDescription) (int, error)
+}
+
+// addCurrentKey adds a key and makes it current. A failure must not leave the new key behind
+// in the key ring, so both steps go into one transaction where the key ring supports that.
+func addCurrentKey(ring api.MutableKeyRing, key api.KeyDescription) error {
+	if atomicRing, ok := ring.(currentKeyAdder); ok {
+		_, err := atomicRing.AddCurrentKey(key)
+		return err
+	}
+	i, err := ring.AddKey(key)
+	if err != nil {
+		return err
+	}
+	return ring.SetCurrent(i)
+}
+
 func (s *ServerKeyStore) addCurrentKeyPair(ring api.MutableKeyRing, pair *keys.Keypair) error {
-	i, err := ring.AddKey(s.describeNewKeyPair(pair))
-	if err != nil {
-		return err
-	}
-	err = ring.SetCurrent(i)
-	if err != nil {
-		return err
-	}
-	return nil
+	return addCurrentKey(ring, s.describeNewKeyPair(pair))
 }
 
 func (s *ServerKeyStore) destroyCurrentKeyPair(ring api.MutableKeyRing) error {
@@ -197,15 +208,7 @@ func (s *ServerKeyStore) newCurrentSymmetricKey(ring api.MutableKeyRing) ([]byte
 }
 
 func (s *ServerKeyStore) addCurrentSymmetricKey(ring api.MutableKeyRing, key []byte) error {
-	i, err := ring.AddKey(s.describeNewSymmetricKey(key))
-	if err != nil {
-		return err
-	}
-	err = ring.SetCurrent(i)
-	if err != nil {
-		return err
-	}
-	return nil
+	return addCurrentKey(ring, s.describeNewSymmetricKey(key))
 }
 
 func (s *ServerKeyStore) describeNewSymmetricKey(key []byte) api.KeyDescription {
